@@ -180,38 +180,43 @@ def kwargs_replay(ctx):
             vis['default_style'] = style
         caller = {k: C[k] for k in st['caller'] if k != 'zz'}
         want = {k: v for k, v in st['res'].items() if k != 'zz'}
-        reg = {'Patch': lambda: R.CirclePixelRegion(PixCoord(1, 2), 3, visual=RegionVisual(vis)),
-               'Line2D': lambda: R.PointPixelRegion(PixCoord(1, 2), visual=RegionVisual(vis)),
-               'Text': lambda: R.TextPixelRegion(PixCoord(1, 2), 'x', visual=RegionVisual(vis))}[art]()
-        with warnings.catch_warnings():
-            warnings.simplefilter('ignore')
-            if n % 2:
-                # an earlier call with other keywords on the same region must leave nothing behind
-                other = {'Patch': {'edgecolor': 'magenta', 'linewidth': 9.0, 'fill': True}, 'Line2D': {'markeredgecolor': 'magenta', 'markersize': 29.0},
-                         'Text': {'color': 'magenta', 'size': 31.0, 'rotation': 5.0}}[art]
-                reg.as_artist(**other)
-            a = reg.as_artist(**caller)
+        makers = {'Patch': [('circle', lambda: R.CirclePixelRegion(PixCoord(1, 2), 3, visual=RegionVisual(vis))),
+                            ('annulus', lambda: [R.CircleAnnulusPixelRegion(PixCoord(1, 2), 2, 3, visual=RegionVisual(vis)),
+                                                 R.EllipseAnnulusPixelRegion(PixCoord(1, 2), 2, 3, 1, 2, visual=RegionVisual(vis)),
+                                                 R.RectangleAnnulusPixelRegion(PixCoord(1, 2), 2, 3, 1, 2, visual=RegionVisual(vis))][n % 3])],
+                  'Line2D': [('point', lambda: R.PointPixelRegion(PixCoord(1, 2), visual=RegionVisual(vis)))],
+                  'Text': [('text', lambda: R.TextPixelRegion(PixCoord(1, 2), 'x', visual=RegionVisual(vis)))]}[art]
+        for rname, mk in makers:
+            reg = mk()
+            with warnings.catch_warnings():
+                warnings.simplefilter('ignore')
+                if n % 2:
+                    # an earlier call with other keywords on the same region must leave nothing behind
+                    other = {'Patch': {'edgecolor': 'magenta', 'linewidth': 9.0, 'fill': True}, 'Line2D': {'markeredgecolor': 'magenta', 'markersize': 29.0},
+                             'Text': {'color': 'magenta', 'size': 31.0, 'rotation': 5.0}}[art]
+                    reg.as_artist(**other)
+                a = reg.as_artist(**caller)
+            ctx.case(('kwargs', rname, style, tuple(sorted(vis)), tuple(sorted(caller))), True)
+            getters = {'edgecolor': 'get_edgecolor', 'linewidth': 'get_linewidth', 'markeredgecolor': 'get_markeredgecolor', 'markersize': 'get_markersize',
+                       'color': 'get_color', 'size': 'get_fontsize', 'rotation': 'get_rotation'}
+            for key, src in want.items():
+                if key not in getters:
+                    continue
+                got = getattr(a, getters[key])()
+                if src == 'C':
+                    exp = C[key]
+                elif src == 'V':
+                    exp = {'edgecolor': V['color'], 'markeredgecolor': V['color'], 'color': V['color'], 'linewidth': V['linewidth'],
+                           'markersize': V['symsize'], 'size': V['fontsize'], 'rotation': V['textangle']}[key]
+                else:
+                    exp = {'ds9green': '#00ff00', '11': 11.0}.get(src, src)
+                ok = (to_rgba(got) == to_rgba(exp)) if isinstance(exp, str) else (float(got) == float(exp))
+                if not ok:
+                    who = {'C': 'caller keyword', 'V': 'stored visual attribute'}.get(src, 'style default')
+                    ctx.violation(f'C18|kwargs|{art}|{rname}|{key}|{who.split()[0]}', f'{rname} artist: {key} is {got!r}, expected the {who} {exp!r}',
+                                  {'artist': art, 'region': rname, 'style': style, 'visual': vis, 'caller': caller})
+                    break
         n += 1
-        ctx.case(('kwargs', art, style, tuple(sorted(vis)), tuple(sorted(caller))), True)
-        getters = {'edgecolor': 'get_edgecolor', 'linewidth': 'get_linewidth', 'markeredgecolor': 'get_markeredgecolor', 'markersize': 'get_markersize',
-                   'color': 'get_color', 'size': 'get_fontsize', 'rotation': 'get_rotation'}
-        for key, src in want.items():
-            if key not in getters:
-                continue
-            got = getattr(a, getters[key])()
-            if src == 'C':
-                exp = C[key]
-            elif src == 'V':
-                exp = {'edgecolor': V['color'], 'markeredgecolor': V['color'], 'color': V['color'], 'linewidth': V['linewidth'],
-                       'markersize': V['symsize'], 'size': V['fontsize'], 'rotation': V['textangle']}[key]
-            else:
-                exp = {'ds9green': '#00ff00', '11': 11.0}.get(src, src)
-            ok = (to_rgba(got) == to_rgba(exp)) if isinstance(exp, str) else (float(got) == float(exp))
-            if not ok:
-                who = {'C': 'caller keyword', 'V': 'stored visual attribute'}.get(src, 'style default')
-                ctx.violation(f'C18|kwargs|{art}|{key}|{who.split()[0]}', f'{art} {key} is {got!r}, expected the {who} {exp!r}',
-                              {'artist': art, 'style': style, 'visual': vis, 'caller': caller})
-                break
     ctx.traces += n
     ctx.note('kwargs_states_replayed', n)
     tlc.cleanup(res.workdir)
